@@ -941,3 +941,122 @@ func jLoose(v JVal) JVal {
 	}
 	return v
 }
+
+// jsonText renders a document of the abstract data model as the text
+// encoding/json.Marshal writes for it (compact, HTML escaping on, Go maps
+// sorted by key). Symbolic string bytes are copied through on the path where
+// they need no escape; a byte that may need one, symbolic numbers and opaque
+// strings are outside what the renderer does.
+func (e *Engine) jsonText(v JVal) StrVal {
+	out := StrVal{}
+	lit := func(s string) { out.bytes = append(out.bytes, mkStr(s).bytes...) }
+	str := func(s StrVal) {
+		if s.atom != nil {
+			unsupported("JSON text of an opaque string")
+		}
+		lit(`"`)
+		run := []byte{}
+		flush := func() {
+			if len(run) > 0 {
+				b, _ := json.Marshal(string(run))
+				lit(string(b[1 : len(b)-1]))
+				run = run[:0]
+			}
+		}
+		for _, b := range s.bytes {
+			if b.konst {
+				run = append(run, byte(b.iv))
+				continue
+			}
+			flush()
+			esc := tOr(tCmp("<", b, mkInt(0x20)), tCmp(">=", b, mkInt(0x7f)))
+			for _, c := range []byte{'"', '\\', '<', '>', '&'} {
+				esc = tOr(esc, tEq(b, mkInt(int64(c))))
+			}
+			if e.decide(esc) {
+				unsupported("JSON text of a symbolic string byte that needs escaping")
+			}
+			out.bytes = append(out.bytes, b)
+		}
+		flush()
+		lit(`"`)
+	}
+	var rec func(v JVal)
+	rec = func(v JVal) {
+		switch t := v.(type) {
+		case nil, JNull:
+			lit("null")
+		case JBool:
+			if e.decide(t.b) {
+				lit("true")
+			} else {
+				lit("false")
+			}
+		case JNum:
+			switch n := t.v.(type) {
+			case *Term:
+				if !n.konst {
+					unsupported("JSON text of a symbolic number")
+				}
+				lit(strconv.FormatInt(n.iv, 10))
+			case FloatVal:
+				b, err := json.Marshal(n.f)
+				if err != nil {
+					unsupported("JSON text of a float json refuses")
+				}
+				lit(string(b))
+			default:
+				unsupported("JSON text of number %T", t.v)
+			}
+		case JStr:
+			str(t.s)
+		case JArr:
+			lit("[")
+			for i, x := range t.elems {
+				if i > 0 {
+					lit(",")
+				}
+				rec(x)
+			}
+			lit("]")
+		case JObj:
+			o := e.sortedObj(t)
+			lit("{")
+			for i, k := range o.keys {
+				if i > 0 {
+					lit(",")
+				}
+				str(k)
+				lit(":")
+				rec(o.vals[i])
+			}
+			lit("}")
+		default:
+			unsupported("JSON text of %T", v)
+		}
+	}
+	rec(v)
+	return out
+}
+
+// bytesText: the text of a []byte value (plain bytes, written text, or a JSON
+// document rendered by jsonText).
+func (e *Engine) bytesText(v Value) StrVal {
+	switch b := v.(type) {
+	case SliceVal:
+		out := StrVal{}
+		for _, x := range sliceElems(b) {
+			out.bytes = append(out.bytes, x.(*Term))
+		}
+		return out
+	case JBytes:
+		return e.jsonText(b.tree)
+	case bufBytes:
+		if s, ok := segsText(b.segs); ok {
+			return s
+		}
+		return e.jsonText(e.bytesToJ(b))
+	}
+	unsupported("text of %T", v)
+	return StrVal{}
+}
